@@ -66,6 +66,8 @@ func queries() []*qgen.Query {
 		{Root: []*qgen.Node{F("users", F("fav", On("Item", F("owner", F("id"))), On("User", F("score"))), F("friend", F("items", F("id"))))}},
 		// a list with null entries in front of and between the objects (list indices in the error path)
 		{Root: []*qgen.Node{F("usersN", F("id"), F("score"), F("friend", F("score")))}},
+		// lists handed over by value: non-comparable structs (a slice field) and comparable ones
+		{Root: []*qgen.Node{F("itemsV", F("id"), F("owner", F("name"), F("score"))), F("usersV", F("id"), F("score"))}},
 		// resolvers whose only result is an error
 		{Root: []*qgen.Node{F("users", F("id"), F("ack"), F("friend", FA("a", "ack")))}},
 	}
@@ -213,7 +215,11 @@ func runSeq(rp *explore.Report, tier string) {
 	d := gqlfix.DataSets()[0]
 	var k int64
 	for _, c := range cases(tier) {
-		for si, sched := range []graphql.WorkScheduler{gqlfix.FIFO{}, gqlfix.LIFO{}} {
+		scheds := []graphql.WorkScheduler{gqlfix.FIFO{}, gqlfix.LIFO{}}
+		if c.modes["owner"] == gqlfix.Expensive {
+			scheds = append(scheds, nil) // inside a reactive rerunner: Expensive fields go through reactive.Cache
+		}
+		for si, sched := range scheds {
 			k++
 			if !rp.Mine(k) {
 				continue
@@ -221,7 +227,13 @@ func runSeq(rp *explore.Report, tier string) {
 			rp.Cases++
 			rp.Nontrivial++
 			schema := gqlfix.Build(d, c.modes, hook(c))
-			res, err := gqlfix.Exec(context.Background(), schema, sched, c.q.String(), nil)
+			var res interface{}
+			var err error
+			if sched == nil {
+				res, err = gqlfix.ExecReactive(schema, gqlfix.FIFO{}, c.q.String(), nil)
+			} else {
+				res, err = gqlfix.Exec(context.Background(), schema, sched, c.q.String(), nil)
+			}
 			if rp.Cases%1499 == 1 {
 				rp.AddSample(map[string]interface{}{"case": c.name(), "error": fmt.Sprint(err)})
 			}
@@ -269,7 +281,7 @@ func runSched(rp *explore.Report, tier string) {
 
 func init() {
 	reg.Register(&reg.Harness{Property: "C16", Name: "c16/execute-sequential", Level: "model_checking", Run: runSeq,
-		Rule: "sequential part: 6 queries (nested objects, lists, lists with null entries, aliases, unions, resolvers whose only result is an error) x every single failing field instance and pairs of them (incl. one that is never reached) x failure kind {error, SafeError, wrapped safe error, panic} x field modes {plain, expensive, batch, mixed parallel} x FIFO/LIFO schedulers; oracle: Execute returns (nil, err) and err is exactly `path: message` of a failing reached field instance (response path with aliases and list indices; any member of the unit for batch fields), or the bare message for client-safe errors; no failure when no failing field is reached"})
+		Rule: "sequential part: 7 queries (nested objects, lists, lists with null entries, lists handed over by value incl. non-comparable structs, aliases, unions, resolvers whose only result is an error) x every single failing field instance and pairs of them (incl. one that is never reached) x failure kind {error, SafeError, wrapped safe error, panic} x field modes {plain, expensive, batch, mixed parallel} x FIFO/LIFO schedulers and, for Expensive mode sets, inside a reactive rerunner; oracle: Execute returns (nil, err) and err is exactly `path: message` of a failing reached field instance (response path with aliases and list indices; any member of the unit for batch fields), or the bare message for client-safe errors; no failure when no failing field is reached"})
 	reg.Register(&reg.Harness{Property: "C16", Name: "c16/execute-scheduled", Level: "model_checking", Bounds: [2]int{2, 3}, Run: runSched,
 		Item: func(name string) *explore.Item {
 			for _, c := range cases("thorough") {
